@@ -4,13 +4,13 @@ SPEC = {
     'level': 'model_checking',
     'engine': 'H+S',
     'technique': 'exhaustive enumeration of request-size sequences with an mmap fault seam, plus stateless exploration of all thread interleavings (state-cached, unbounded preemptions) of the real allocator under a controlled scheduler',
-    'claim': 'every request sequence up to length 3 (quick) / 4 (thorough) over 8 sizes on the fallback allocator and through Acquire with every mmap ok/fail pattern, and every interleaving of 2-3 concurrent requesters with 1-2 requests each, yields regions that are big enough, executable, writable through the writer, pairwise disjoint and inside the reserve, with exhaustion reported as an error',
+    'claim': 'every request sequence up to length 3 (quick) / 4 (thorough) over 9 sizes on the fallback allocator and through Acquire with every mmap ok/fail pattern, and every interleaving of 2-3 concurrent requesters with 1-2 requests each, yields regions that are big enough, executable, writable through the writer, pairwise disjoint and inside the reserve, with exhaustion reported as an error',
     'note': 'scheduling points are the sync/atomic operations and the mmap/mprotect calls of goom (import-rewritten copies of the working-tree files); memory-model effects below sequential consistency are not modelled',
     'jobs': [
         {'bin': 'c20', 'sub': 'seq', 'shards': 8, 'maxcases': 3000, 'max_restarts': 40},
         {'bin': 'c20', 'sub': 'conc', 'shards': 8},
     ],
-    'rule': 'seq: all sequences over sizes {0,1,48,R/2,R-48,R,R+1,2^47+1} x (direct fallback | Acquire x all 2^len mmap ok/fail patterns), non-trivial = contains a request in (0,R]. '
+    'rule': 'seq: all sequences over sizes {0,1,20,48,R/2,R-48,R,R+1,2^47+1} x (direct fallback | Acquire x all 2^len mmap ok/fail patterns), non-trivial = contains a request in (0,R]; after the last request every region is filled completely in reverse order, all are read back, and the never-handed-out rest of the reserve must be pristine. '
             'conc: all configurations of 2 threads (and 3 threads) x per-thread request lists of length 1..2 over {48,R/2,R}; for each, ALL interleavings at the '
             'atomic operations (unbounded preemptions, visited-set on (cells, per-thread pc and observation hash)); distinct_nontrivial counts executions containing >=1 preemption.',
     'assumptions': ['the fallback allocator shares no state other than its offset word (checked: all accesses go through sync/atomic)',
